@@ -6,7 +6,7 @@ import SV.TxCache.ListProofs
 import SV.TxCache.ListsInvProofs
 import SV.TxCache.EvictPost
 import SV.TxCache.ReachableProofs
-import SV.GenProofs
+import SV.GenProofs.TxThresholds
 namespace SV.Props.C04
 open SV SV.TxCache
 
